@@ -26,7 +26,9 @@ ENCODED = [
     'class family, at import)']
 ASSUMPTIONS = [
     'S1-S3 stubs (load side); dumping runs the real serializer and emitter',
-    'hierarchy: single-inheritance chain A <- B <- C of registered classes, '
+    'hierarchy: chain A <- B <- C of registered classes, a registered '
+    'DIAMOND class X(B, S) that reaches A along two paths (for X the order '
+    'between its parents\' hooks is not pinned: each once, A first, X last), '
     'C additionally inherits an UNREGISTERED mix-in that defines all three '
     'hooks (and whose __name__ equals that of the registered class S in the '
     'families where S defines the hook), a registered sibling S(A), a holder class; the subset of classes '
@@ -50,7 +52,7 @@ def _mk_hook(kind, owner_name):
         if kind == 'recognize':
             # the same rule automatic recognition would apply
             for k in {'A': 'a', 'B': 'ab', 'C': 'abc', 'S': 'as',
-                      'M': 'a'}[owner_name]:
+                      'M': 'a', 'X': 'absx'}[owner_name]:
                 node.require_attribute(k, int)
         if kind == 'savorize' and RAISE[0] == owner_name:
             if BARE[0]:
@@ -88,6 +90,10 @@ def make_classes(kind, fa, fb, fc, fs, fm):
         TRACE.append(('init', type(self).__name__, 'S'))
         self.a, self.s = a, s
 
+    def init_x(self, a: int, b: int, s: int, x: int) -> None:
+        TRACE.append(('init', type(self).__name__, 'X'))
+        self.a, self.b, self.s, self.x = a, b, s, x
+
     A = type('A', (), body('A', fa, init_a))
     B = type('B', (A,), body('B', fb, init_b))
     md = {}
@@ -100,12 +106,14 @@ def make_classes(kind, fa, fb, fc, fs, fm):
     M = type('S' if fs else 'M', (), md)
     C = type('C', (B, M), body('C', fc, init_c))
     S = type('S', (A,), body('S', fs, init_s))
+    # a DIAMOND: X reaches A along two paths; it defines the hook iff C does
+    X = type('X', (B, S), body('X', fc, init_x))
 
     def init_h(self, x: A, y: Optional[int] = None) -> None:
         TRACE.append(('init', 'Holder', 'Holder'))
         self.x, self.y = x, y
     H = type('Holder', (), {'__init__': init_h})
-    return A, B, C, S, M, H
+    return A, B, C, S, M, H, X
 
 
 _FAMILIES = {}
@@ -132,14 +140,14 @@ for _k in ('savorize', 'recognize', 'sweeten'):
     for _m in range(32):
         _b = [bool(_m >> i & 1) for i in range(5)]
         _fam = {'classes': make_classes(_k, *_b)}
-        _A, _B, _C, _S, _M, _H = _fam['classes']
+        _A, _B, _C, _S, _M, _H, _X = _fam['classes']
         if _k == 'sweeten':
-            _fam['dumps'] = yatiml.dumps_function(_A, _B, _C, _S, _H)
+            _fam['dumps'] = yatiml.dumps_function(_A, _B, _C, _S, _H, _X)
         else:
             _fam['load'] = []
             for _pos in range(5):
                 _dt = [_A, List[_A], Dict[str, _A], _H, Union[_A, int]][_pos]
-                _regs = [_A, _B, _C, _S] + ([_H] if _pos == 3 else [])
+                _regs = [_A, _B, _C, _S, _X] + ([_H] if _pos == 3 else [])
                 _fam['load'].append(yatiml.load_function(
                     _dt, *[c for c in _regs if c is not _dt]))
         _FAMILIES[(_k, _m)] = _fam
@@ -153,9 +161,14 @@ def _doc_for(target, tagged=False):
         ents.append((scalar(T_STR, 'c'), scalar(T_INT, '3')))
     if target == 3:
         ents.append((scalar(T_STR, 's'), scalar(T_INT, '4')))
+    if target == 4:
+        ents += [(scalar(T_STR, 'b'), scalar(T_INT, '2')),
+                 (scalar(T_STR, 's'), scalar(T_INT, '4')),
+                 (scalar(T_STR, 'x'), scalar(T_INT, '5'))]
     if tagged:
         # the document author names the (correct) class explicitly
-        return mapping(ents, tag='!' + pick(['A', 'B', 'C', 'S'], target))
+        return mapping(ents, tag='!' + pick(['A', 'B', 'C', 'S', 'X'],
+                                            target))
     return mapping(ents)
 
 
@@ -170,9 +183,23 @@ def _place(node, pos):
 
 
 def _expected_hooks(kind, target, fa, fb, fc, fs):
-    chain = pick([['A'], ['A', 'B'], ['A', 'B', 'C'], ['A', 'S']], target)
-    has = {'A': fa, 'B': fb, 'C': fc, 'S': fs}
+    chain = pick([['A'], ['A', 'B'], ['A', 'B', 'C'], ['A', 'S'],
+                  ['A', 'B', 'S', 'X']], target)
+    has = {'A': fa, 'B': fb, 'C': fc, 'S': fs, 'X': fc}
     return [(kind, n, n) for n in chain if has[n]]
+
+
+def _same_hooks(hooks, want, target):
+    """Each expected hook exactly once, ancestors before descendants.  For
+    the diamond class the relative order of its two parents is not pinned by
+    the property."""
+    if target != 4:
+        return hooks == want
+    if sorted(hooks) != sorted(want):
+        return False
+    names = [h[1] for h in hooks]
+    return (('A' not in names or names[0] == 'A')
+            and ('X' not in names or names[-1] == 'X'))
 
 
 def _load_hooks(kind, fa, fb, fc, fs, fm, target, pos, raise_in,
@@ -180,7 +207,7 @@ def _load_hooks(kind, fa, fb, fc, fs, fm, target, pos, raise_in,
     fam = family(kind, fa, fb, fc, fs, fm)
     load = pick(fam['load'], pos)
     del TRACE[:]
-    names = ['A', 'B', 'C', 'S']
+    names = ['A', 'B', 'C', 'S', 'X']
     RAISE[0] = pick([None, 'A', 'B', 'C', 'S', 'A', 'B', 'C', 'S'], raise_in) \
         if kind == 'savorize' else None
     BARE[0] = raise_in >= 5
@@ -211,11 +238,19 @@ def _load_hooks(kind, fa, fb, fc, fs, fm, target, pos, raise_in,
     if raising:
         # hooks up to and including the raising one, then RecognitionError
         cut = [w[1] for w in want].index(RAISE[0]) + 1
-        return hooks == want[:cut] and outcome == 'RecognitionError' and \
+        if target == 4:
+            ok = (bool(hooks) and hooks[-1][1] == RAISE[0]
+                  and len(set(hooks)) == len(hooks)
+                  and all(h in want for h in hooks)
+                  and ('A' not in [w[1] for w in want]
+                       or hooks[0][1] == 'A'))
+        else:
+            ok = hooks == want[:cut]
+        return ok and outcome == 'RecognitionError' and \
             not any(e[0] == 'init' for e in trace)
     if outcome != 'ok':
         return False
-    if hooks != want:
+    if not _same_hooks(hooks, want, target):
         return False
     # all hooks of the object run before its constructor
     first_init = min([i for i, e in enumerate(trace) if e[0] == 'init'],
@@ -229,7 +264,7 @@ def _load_hooks(kind, fa, fb, fc, fs, fm, target, pos, raise_in,
 def savorize(fa: bool, fb: bool, fc: bool, fs: bool, fm: bool, target: int,
              pos: int, raise_in: int, tagged: bool) -> bool:
     """
-    pre: 0 <= target < 4 and 0 <= pos < 5 and 0 <= raise_in < 9
+    pre: 0 <= target < 5 and 0 <= pos < 5 and 0 <= raise_in < 9
     post: __return__
     """
     s = slice_no(-1)
@@ -244,7 +279,7 @@ def savorize(fa: bool, fb: bool, fc: bool, fs: bool, fm: bool, target: int,
 def recognize(fa: bool, fb: bool, fc: bool, fs: bool, fm: bool, target: int,
               pos: int, tagged: bool) -> bool:
     """
-    pre: 0 <= target < 4 and 0 <= pos < 5
+    pre: 0 <= target < 5 and 0 <= pos < 5
     post: __return__
     """
     return _load_hooks('recognize', fa, fb, fc, fs, fm, target, pos, 0,
@@ -253,10 +288,10 @@ def recognize(fa: bool, fb: bool, fc: bool, fs: bool, fm: bool, target: int,
 
 def _sweeten(fa, fb, fc, fs, fm, target, pos):
     fam = family('sweeten', fa, fb, fc, fs, fm)
-    A, B, C, S, M, H = fam['classes']
+    A, B, C, S, M, H, X = fam['classes']
     dumps = fam['dumps']
     obj = pick([lambda: A(1), lambda: B(1, 2), lambda: C(1, 2, 3),
-                lambda: S(1, 4)], target)()
+                lambda: S(1, 4), lambda: X(1, 2, 4, 5)], target)()
     val = pick([lambda: obj, lambda: [obj], lambda: {'k': obj},
                 lambda: H(obj), lambda: [obj, 5]], pos)()
     del TRACE[:]
@@ -269,15 +304,15 @@ def _sweeten(fa, fb, fc, fs, fm, target, pos):
     hooks = [e for e in TRACE if e[0] == 'sweeten']
     want = _expected_hooks('sweeten', target, fa, fb, fc, fs)
     if not SYMBOLIC:
-        note(hook='sweeten', object=['A', 'B', 'C', 'S'][target],
+        note(hook='sweeten', object=['A', 'B', 'C', 'S', 'X'][target],
              position=pos, trace=hooks, expected=want, text=text)
-    return hooks == want
+    return _same_hooks(hooks, want, target)
 
 
 def sweeten(fa: bool, fb: bool, fc: bool, fs: bool, fm: bool, target: int,
             pos: int) -> bool:
     """
-    pre: 0 <= target < 4 and 0 <= pos < 5
+    pre: 0 <= target < 5 and 0 <= pos < 5
     post: __return__
     """
     return _sweeten(fa, fb, fc, fs, fm, target, pos)
@@ -286,7 +321,7 @@ def sweeten(fa: bool, fb: bool, fc: bool, fs: bool, fm: bool, target: int,
 def savorize_reach(fa: bool, fb: bool, fc: bool, fs: bool, fm: bool,
                    target: int, pos: int, raise_in: int) -> bool:
     """
-    pre: 0 <= target < 4 and 0 <= pos < 5 and 0 <= raise_in < 5
+    pre: 0 <= target < 5 and 0 <= pos < 5 and 0 <= raise_in < 5
     post: __return__
     """
     if target != 2 or pos != 3 or raise_in != 0:
@@ -296,24 +331,24 @@ def savorize_reach(fa: bool, fb: bool, fc: bool, fs: bool, fm: bool,
 
 
 CONDITIONS = [
-    {'fn': 'savorize', 'slices': [0, 1, 2, 3, 4], 'quick': 220,
+    {'fn': 'savorize', 'slices': [0, 1, 2, 3, 4], 'quick': 400,
      'thorough': 300,
      'bound': 'one slice per position: all 2^5 subsets of classes defining '
               '_yatiml_savorize (incl. the unregistered mix-in) x document '
-              'denoting A/B/C/S, untagged or tagged with its class, x the '
+              'denoting A/B/C/S/X, untagged or tagged with its class, x the '
               'hook of A/B/C/S (or none) raising '
               'SeasoningError with or without a message; the mix-in is named '
               'like the registered class S whenever S defines the hook; trace == base-first own-body hooks of the '
               'registered chain, all before the constructor'},
     {'fn': 'savorize_reach', 'quick': 60, 'thorough': 60,
      'expect': 'REFUTED', 'bound': 'reachability twin'},
-    {'fn': 'recognize', 'quick': 220, 'thorough': 300,
+    {'fn': 'recognize', 'quick': 400, 'thorough': 300,
      'bound': 'all 2^5 subsets of classes defining _yatiml_recognize x '
-              'document denoting A/B/C/S x 5 positions: every call has cls '
+              'document denoting A/B/C/S/X x 5 positions: every call has cls '
               '== the defining class, the mix-in\'s is never called, the '
               'document loads'},
     {'fn': 'sweeten', 'quick': 110, 'thorough': 300,
      'bound': 'all 2^5 subsets of classes defining _yatiml_sweeten x object '
-              'of class A/B/C/S x 5 positions: trace == base-first own-body '
+              'of class A/B/C/S/X x 5 positions: trace == base-first own-body '
               'hooks of the registered chain, each once'},
 ]
